@@ -11,9 +11,9 @@ TRUST = ("Trusted: go/packages+go/ssa, the SMT solvers, the plencvc VC generator
 CLAIMS = {
  "C18": ("proof", "Every function of plenccore (varint append/read/size, zig-zag, tag, Skip) and encoding/binary.Uvarint (GOROOT source) is under a functional contract written against spec functions taken from the protobuf encoding guide. Obligations are generated from the current tree (bit-vector exact; width-bounded loops unrolled with the unwinding assertion proved; Skip's counted-slice loop cut at an invariant with a termination measure) and all are discharged, for all 2^64 values, all wire types, all field indexes below 2^60 and all byte strings; spec-level lemmas (zig-zag injective, k-byte bands, tag injectivity) are discharged too.",
          "Counted-slice exactness of Skip is proved under a ghost well-formedness hypothesis whose per-entry definition is instantiated at the loop counter. math/bits.Len64 and fmt.Errorf are assumed contracts."),
- "C05": ("proof", "Size == len(Append) - len(data), tag framing (tag, varint length, body) and consumed length n are proved from functional contracts for every leaf codec (bool, all IntCodec/UintCodec/FlatIntCodec instantiations, float32/64, string, bytes) for every value and every tag; decoders of composite values (struct, map, slice wrappers, time) are proved to return 0 <= n <= len(data). Composite Size/Append agreement, JSON/BigQuery/null codecs are not yet under contract.",
+ "C05": ("proof", "Size == len(Append) - len(data), tag framing (tag, varint length, body) and consumed length n are proved from functional contracts for every leaf codec (bool, all IntCodec/UintCodec/FlatIntCodec instantiations, float32/64, string, bytes) for every value and every tag; decoders of composite values (struct, map, slice wrappers, time) are proved to return 0 <= n <= len(data). For StructCodec the law is proved too: size and append walk the same fields (ghost partial sums), Size adds tag and varint length exactly when tagged, and len(Append) - len(data) == Size; the time codecs, the five null.* codecs and the BigQuery timestamp codec (whose inherited Size was wrong - repaired by a fix: commit) are proved as well. Slice wrappers, map codecs and the JSON codecs' Size/Append are not yet under contract.",
          "Partial: the structural induction over composite types (meta-lemma M-ind) is stated in DESIGN.md, not mechanised."),
- "C02": ("proof", "The bytes every leaf codec appends are proved equal to an independently written wire-format specification (varint, zig-zag, little-endian fixed, raw bytes with optional tag and length prefix), together with the primitives of plenccore; omission rules (Omit) of the leaf codecs are proved. Composite layouts (struct field order, packed/counted slices, maps, time) are not yet under contract.",
+ "C02": ("proof", "The bytes every leaf codec appends are proved equal to an independently written wire-format specification (varint, zig-zag, little-endian fixed, raw bytes with optional tag and length prefix), together with the primitives of plenccore; omission rules (Omit) of the leaf codecs are proved. Time encodings (Timestamp fields 1 and 2, zig-zag), the struct framing (tag, varint body length, body; prefix kept), the tag constants established by package initialisation and the fallback of named basic kinds to the codec of their basic type (dispatcher table) are proved too. Field order inside structs, packed/counted slices and maps are not yet under contract.",
          "Partial coverage as stated; spec functions come from README/wire.go/protobuf guide, not from the code."),
  "C01": ("proof", "For every leaf codec the decoder is proved to invert the specified encoding for every value (Read of the specified body returns the value and consumes exactly the body; int truncation per instantiation; float bit patterns; strings/bytes by content). Composite round trips rest on these plus the composite contracts not yet written.",
          "Partial: leaves only; composites by the (unmechanised) induction of DESIGN.md section 1."),
@@ -25,6 +25,10 @@ CLAIMS = {
          "Partial coverage as stated."),
  "C14": ("proof", "The Descriptor of every leaf codec is proved to be exactly the table entry of the property statement (field type, every other attribute zero). Struct/slice/map/pointer/time/null descriptors not yet under contract.",
          "Partial coverage as stated."),
+ "C03": ("proof", "Skip is proved to return exactly the encoded length of a well-formed field of every wire type (varint, fixed 32/64, length-delimited, and counted slices under a ghost well-formedness hypothesis), and errors otherwise (plenccore, shared with C18). StructCodec.Read is proved to terminate having consumed exactly len(data) on success, so every field - known or skipped - is stepped over exactly; the struct reader, sizer and appender are proved on their SSA never to read a field's name, and the reader never to consult declaration order (only the index table), so renaming and reordering cannot change decoding. TimeCodec / TimeCompatCodec readers (their default: skip branch) likewise consume exactly their input. The per-field value clause (a shared index receives the same value) rests on the component codec contracts; absent fields keep their prior value by the frame of the abstract component Read.",
+         "The S/S' statement itself is the corollary M-evo of DESIGN.md over these contracts, not mechanised."),
+ "C12": ("proof", "TimeCompatCodec.size/append/Size/Append are proved to produce Timestamp{seconds = field 1, nanos = field 2} with plain (non zig-zag) varints - two's complement for negative seconds - framed like every other length-delimited field, and Size to agree with Append; the tag constants used are proved to be established by package initialisation; ProtoMapCodec.Read and the repeated-field reader (readAsWTLength / ProtoSliceWrapper.Read) are proved total (C04). The repeated-field and per-entry map writers (ProtoSliceWrapper / ProtoMapCodec Size/Append) and the option switches in the dispatcher are not yet under contract.",
+         "Partial coverage as stated; time.Time accessors (Unix, Nanosecond) are uninterpreted pure functions."),
  "C06": ("proof", "(*Plenc).Marshal is proved to return, on success, a slice at least as long as the destination buffer whose first len(buf) bytes are the buffer's (for every registered or built codec obeying the interface contract, every buffer and capacity, including values that encode to nothing - the omit branch defect found here was repaired by a fix: commit); every leaf Append is proved to be old(data) ++ a byte sequence that is a function of the value and the tag alone; plenc.Marshal is proved to forward to the default instance. By-value versus by-pointer equivalence is outside the engine's model of interface values and is not decided.",
          "The bytes appended by composite codecs are those of their (interface-level) Append contract; determinism of composite encoders rests on contracts not yet written. The pointer-shaped by-value crash noted in the property is not reachable by this technique."),
  "C17": ("proof", "CodecForTypeRegistry is proved to return an existing registration for exactly (type, tag) before any kind-based default, and - for each of the 14 basic kinds - to succeed exactly when the codec registered on the same instance for the corresponding basic type under the same tag exists and then to return that codec (specified as a table written from the property statement, over an abstract reflect.Type). Every instance method of Plenc is proved (on its SSA, including inlined helpers) to reference no package-level variable, and each package-level function is proved to be a plain forwarding call on the default instance.",
